@@ -27,12 +27,54 @@ type EventElement interface {
 const PubSubCollectionEventName = "Collection"
 
 type CollectionEvent struct {
+	XMLName       xml.Name `xml:"collection"`
 	AssocDisassoc AssocDisassoc
 	Node          string `xml:"node,attr,omitempty"`
 }
 
 func (c CollectionEvent) Name() string {
 	return PubSubCollectionEventName
+}
+
+// UnmarshalXML: the associate / disassociate child lives in an interface field, which
+// encoding/xml cannot fill by itself (it was silently dropped).
+func (c *CollectionEvent) UnmarshalXML(d *xml.Decoder, start xml.StartElement) error {
+	c.XMLName = start.Name
+	for _, attr := range start.Attr {
+		if attr.Name.Space == "" && attr.Name.Local == "node" {
+			c.Node = attr.Value
+		}
+	}
+	for {
+		t, err := d.Token()
+		if err != nil {
+			return err
+		}
+		switch tt := t.(type) {
+		case xml.StartElement:
+			switch tt.Name.Local {
+			case "associate":
+				a := AssociateEvent{}
+				if err = d.DecodeElement(&a, &tt); err != nil {
+					return err
+				}
+				c.AssocDisassoc = &a
+			case "disassociate":
+				a := DisassociateEvent{}
+				if err = d.DecodeElement(&a, &tt); err != nil {
+					return err
+				}
+				c.AssocDisassoc = &a
+			default:
+				if err = d.Skip(); err != nil {
+					return err
+				}
+			}
+		case xml.EndElement:
+			// every child is consumed whole above: this is our own end tag
+			return nil
+		}
+	}
 }
 
 // *********************
@@ -77,8 +119,9 @@ func (e *DisassociateEvent) GetAssocDisassoc() string {
 const PubSubConfigEventName = "Configuration"
 
 type ConfigurationEvent struct {
-	Node string `xml:"node,attr,omitempty"`
-	Form *Form
+	XMLName xml.Name `xml:"configuration"`
+	Node    string   `xml:"node,attr,omitempty"`
+	Form    *Form
 }
 
 func (c ConfigurationEvent) Name() string {
@@ -91,6 +134,7 @@ func (c ConfigurationEvent) Name() string {
 const PubSubDeleteEventName = "Delete"
 
 type DeleteEvent struct {
+	XMLName  xml.Name       `xml:"delete"`
 	Node     string         `xml:"node,attr"`
 	Redirect *RedirectEvent `xml:"redirect"`
 }
@@ -159,8 +203,9 @@ func (p PurgeEvent) Name() string {
 const PubSubSubscriptionEventName = "Subscription"
 
 type SubscriptionEvent struct {
-	SubStatus string `xml:"subscription,attr,omitempty"`
-	Expiry    string `xml:"expiry,attr,omitempty"`
+	XMLName   xml.Name `xml:"subscription"`
+	SubStatus string   `xml:"subscription,attr,omitempty"`
+	Expiry    string   `xml:"expiry,attr,omitempty"`
 	SubInfo   `xml:",omitempty"`
 }
 
